@@ -1,5 +1,6 @@
 """C05 No client can get another client disconnected from the relay."""
 from ..lib import *
+from ..analysis import reachable_fs
 
 S = "iroh_relay::server::"
 ACT = S + "client::Actor::"
@@ -34,7 +35,9 @@ def check(F, rep):
 
     # ---- chain of hops from the arm handler to the sink
     chain = [ACT + "send_packet", ACT + "send_raw", ACT + "write_frame"]
-    hops = [body_of(F, rep, n) for n in chain]
+    from ..inline import inlined
+    # predicate / matching helpers may have been extracted: analyse the inlined views
+    hops = [inlined(F, body_of(F, rep, n), keep=set(chain)) for n in chain]
     # each hop calls the next
     rep.ob("call_chain", bool(find_calls(hops[0], ACT + "send_raw")), site(hops[0]), "send_packet -> send_raw", skey(F, hops[0], "chain"))
     rep.ob("call_chain", bool(find_calls(hops[1], ACT + "write_frame")), site(hops[1]), "send_raw -> write_frame", skey(F, hops[1], "chain"))
@@ -168,7 +171,7 @@ def absorbs(F, h, adt, variant, region=None):
             continue
         tgt = explicit[dv]
         # everything reachable from the variant's edge returns success
-        reach = h.reachable(tgt)
+        reach = reachable_fs(h, tgt)
         rets = [(bb, i, rv) for bb, i, rv in returns_of(h) if bb in reach]
         bad = [1 for bb, i, rv in rets if not (i is not None and rv["k"] == "agg" and rv.get("variant") == "Ok")]
         # but only returns that are *exclusively* on this edge matter: require the first
@@ -177,9 +180,9 @@ def absorbs(F, h, adt, variant, region=None):
         others = set()
         for v, tb in explicit.items():
             if v != dv and tb != tgt:
-                others |= h.reachable(tb)
+                others |= reachable_fs(h, tb)
         if t["otherwise"] != tgt:
-            others |= h.reachable(t["otherwise"])
+            others |= reachable_fs(h, t["otherwise"])
         own = reach - others
         own_rets = [(bb, i, rv) for bb, i, rv in returns_of(h) if bb in own]
         if own_rets and all(i is not None and rv["k"] == "agg" and rv.get("variant") == "Ok" for bb, i, rv in own_rets):
